@@ -703,7 +703,41 @@ func (x *FnCtx) appendOp(fr *Frame, st *State, in ssa.Value, args []ssa.Value) V
 		newLen := x.iadd(base.Len, add.Len)
 		sz := tb.Add(tb.Mul(x.toInt(newLen), tb.IntC(slotSize(et))), tb.IntC(1))
 		r := x.alloc(st.heap, sz)
-		x.abstracted("append on slice-of-struct: element copy abstracted")
+		flat := true
+		l := layoutOf(et)
+		for i := range l.Fields {
+			switch l.Fields[i].T.Underlying().(type) {
+			case *types.Struct, *types.Array, *types.Slice:
+				flat = false
+			}
+		}
+		if !flat {
+			x.abstracted("append on slice-of-struct: element copy abstracted")
+			return SliceV{Arr: r, Off: x.idx(0), Len: newLen, Cap: newLen}
+		}
+		// flat element type: every field map gets the old elements followed by the appended ones at the
+		// new array; everything below the new array keeps its value
+		slot := tb.IntC(slotSize(et))
+		for i := range l.Fields {
+			fi := &l.Fields[i]
+			name := fieldMap(fi)
+			srt := x.fieldMapSort(fi.T)
+			old := x.heapGet(st.heap, name, srt)
+			nw := tb.Fresh("app."+shortKey(name), srt)
+			x.eng.qctr++
+			k := tb.Var(fmt.Sprintf("ak?%d", x.eng.qctr), IntSort)
+			below := tb.Forall([]*Term{k}, tb.Implies(tb.Lt(k, r), tb.Eq(tb.Select(nw, k), tb.Select(old, k))))
+			x.eng.qctr++
+			j := tb.Var(fmt.Sprintf("aj?%d", x.eng.qctr), IntSort)
+			oldEl := tb.Forall([]*Term{j}, tb.Implies(tb.And(tb.Le(tb.IntC(0), j), tb.Lt(j, x.toInt(base.Len))),
+				tb.Eq(tb.Select(nw, tb.Add(r, tb.Mul(j, slot))), tb.Select(old, tb.Add(base.Arr, tb.Mul(tb.Add(x.toInt(base.Off), j), slot))))))
+			x.eng.qctr++
+			i2 := tb.Var(fmt.Sprintf("ai?%d", x.eng.qctr), IntSort)
+			newEl := tb.Forall([]*Term{i2}, tb.Implies(tb.And(tb.Le(tb.IntC(0), i2), tb.Lt(i2, x.toInt(add.Len))),
+				tb.Eq(tb.Select(nw, tb.Add(r, tb.Mul(tb.Add(x.toInt(base.Len), i2), slot))), tb.Select(old, tb.Add(add.Arr, tb.Mul(tb.Add(x.toInt(add.Off), i2), slot))))))
+			st.pc = tb.And(st.pc, below, oldEl, newEl)
+			st.heap.m[name] = nw
+		}
 		return SliceV{Arr: r, Off: x.idx(0), Len: newLen, Cap: newLen}
 	}
 	newLen := x.iadd(base.Len, add.Len)
